@@ -9,10 +9,11 @@ import NrfModel.Drv.NetS
 import NrfModel.Drv.Mesh
 import NrfModel.Drv.Ble
 import NrfModel.Drv.Structs
+import NrfModel.Drv.Spec0809
 
 open Nrf.Drv
 
-def allHandlers : List (String × Handler) := netHandlers ++ rfHandlers ++ netSHandlers ++ meshHandlers ++ bleHandlers ++ structsHandlers
+def allHandlers : List (String × Handler) := netHandlers ++ rfHandlers ++ netSHandlers ++ meshHandlers ++ bleHandlers ++ structsHandlers ++ spec0809Handlers
 
 def dispatch (line : String) : String :=
   match (line.splitOn " ").filter (· ≠ "") with
